@@ -588,6 +588,14 @@ impl<'a> Walk<'a> {
                         t.truncate(cut.min(t.len()));
                         t
                     }
+                    2 => {
+                        // a complete text followed by something
+                        let v = gen::value(self.rng, &cfg);
+                        let mut t = to_zinc_string(&v).unwrap_or_default();
+                        let tail: &str = *self.rng.pick::<&str>(&[" ", "\n", " 2", "]", ",", " x", "\n\n", "\"\""]);
+                        t.push_str(tail);
+                        t
+                    }
                     _ => {
                         let v = gen::value(self.rng, &cfg);
                         to_zinc_string(&v).unwrap_or_default()
@@ -608,6 +616,14 @@ impl<'a> Walk<'a> {
                             cut -= 1;
                         }
                         t.truncate(cut);
+                        t
+                    }
+                    3 => {
+                        // a complete document followed by something: blanks are fine, anything else is not
+                        let v = gen::value(self.rng, &cfg);
+                        let mut t = serde_json::to_string(&v).unwrap_or_default();
+                        let tail: &str = *self.rng.pick::<&str>(&[" ", "\n", " 2", "]", "}", "false", "abc", ",", " \t\n ", "\"\"", "null"]);
+                        t.push_str(tail);
                         t
                     }
                     _ => {
